@@ -55,3 +55,47 @@ CLAIMED["C13"] = {
     "design_ref": "DESIGN.md §4 C13",
     "note": TB + " The sanitiser idiom recognised is position-based scanning; another correct idiom makes the check fail closed.",
 }
+
+SESSION = ("event words of Cli::process_byte per key, obtained by one abstract interpretation of the interprocedural MIR "
+           "(every path, every sink/handler/callback outcome; core-type methods as events with symbolic results)")
+
+CLAIMED["C01"] = {
+    "engine": "E2 event words + def-use atoms",
+    "technique": "interprocedural event-word analysis over MIR with symbolic value atoms (who-may-call, exactly-once, provenance of the dispatched command)",
+    "text": ("Decides on the " + SESSION + ": only Enter reaches CommandProcessor::process and never twice; the Enter arm starts with CR LF, "
+             "tokenises exactly the edit buffer, builds the raw command from exactly those tokens and dispatches exactly that command once "
+             "iff there is a token and (help on) it is not a help request; Ok paths end with editor reset, one prompt, flush; history is "
+             "pushed from Editor::text before the rewrite; from_tokens returns (first token, rest) and None iff no first token. "
+             "Not decided: equality of the tokens with the visible line after arbitrary editing (C05/C07/C08)."),
+    "design_ref": "DESIGN.md §4 C01",
+    "note": TB,
+}
+CLAIMED["C05"] = {
+    "engine": "E2 event words + effect analysis",
+    "technique": "key->operation table from interprocedural event words; effect analysis (abstract interpretation) of Editor methods for reject purity and cursor moves",
+    "text": ("Decides the key->editor-operation table for every path (Char: one insert of the typed text; Backspace: move_left then remove iff "
+             "moved, adjacent; Left/Right: the single move; Tab: autocompletion only), that the rejecting exits of insert/move_left/move_right "
+             "write nothing, and that the moves change the cursor by exactly one with move_left guarded by cursor>0. "
+             "Not decided: equality with an ideal editor over arbitrary edit histories; the capacity guard as arithmetic is under C03."),
+    "design_ref": "DESIGN.md §4 C05",
+    "note": TB,
+}
+CLAIMED["C10"] = {
+    "engine": "E2 event words + field-fact typestate",
+    "technique": "event-word analysis of the history wiring and field-fact abstract interpretation of History methods (cursor = None at every exit of push)",
+    "text": ("Decides the wiring (push from Editor::text before the rewrite; Up->next_older, Down->next_newer; a recalled element replaces the "
+             "line; past-oldest does nothing; past-newest leaves the empty line), that a submit ends navigation (cursor None at every exit of "
+             "the History method the Enter arm calls) and that recall never writes the store. Not decided: order, deduplication and minimal "
+             "eviction over arbitrary histories (content of the byte buffer)."),
+    "design_ref": "DESIGN.md §4 C10",
+    "note": TB,
+}
+CLAIMED["C12"] = {
+    "engine": "E2 event words + E4 decision table",
+    "technique": "routing by interprocedural event words; decision-table extraction of HelpRequest::from_command by abstract interpretation (closure predicate evaluated on every argument shape)",
+    "text": ("Decides routing (the help check directly follows command construction; a request never reaches the handler; All->list_commands, "
+             "Command->command_help on the requested command; unknown -> `error: unknown command`) and the complete decision table of "
+             "HelpRequest::from_command against the statement. Not decided yet: completeness of generated help text (table rule pending), layout."),
+    "design_ref": "DESIGN.md §4 C12",
+    "note": TB,
+}
